@@ -441,7 +441,7 @@ def explore(harness, params=None, pins=None, tolerate=(), budget_s=600.0,
                         where = ""
                         for fr in reversed(tb):
                             if "/crosshair/" not in fr.filename:
-                                where = "%s:%d" % (os.path.basename(fr.filename), fr.lineno)
+                                where = _where(fr)
                                 break
                         outcome = "fail"
                         info = ("EXC:" + type(e).__name__ + "@" + where, _safe_str(e),
@@ -538,6 +538,17 @@ def _safe_str(x):
 # ----------------------------------------------------------------------------------
 # concrete execution (replay)
 # ----------------------------------------------------------------------------------
+_VERIF_DIR = os.path.dirname(os.path.dirname(os.path.abspath(__file__)))
+
+
+def _where(fr):
+    """location of an unexpected exception; one raised by a line of the verification machinery itself (harness, stub,
+    monitor: e.g. a private attribute it reads no longer exists) is marked, the runner reports it as a harness error and
+    never as a violation of the property"""
+    own = os.path.abspath(fr.filename).startswith(_VERIF_DIR + os.sep) and "/.pydeps/" not in fr.filename
+    return "%s%s:%d" % ("harness:" if own else "", os.path.basename(fr.filename), fr.lineno)
+
+
 def run_concrete(harness, params, model, tolerate=(), profile=False):
     """run the harness on concrete inputs, no tracing, real numpy etc.
     returns dict(outcome, code, msg, goals, trace, functions)"""
@@ -563,7 +574,7 @@ def run_concrete(harness, params, model, tolerate=(), profile=False):
         tb = traceback.extract_tb(sys.exc_info()[2])
         where = ""
         for fr in reversed(tb):
-            where = "%s:%d" % (os.path.basename(fr.filename), fr.lineno)
+            where = _where(fr)
             break
         res.update(outcome="fail", code="EXC:" + type(e).__name__ + "@" + where, msg=str(e)[:600],
                    tb="".join(traceback.format_list(tb[-4:])))
